@@ -40,10 +40,35 @@ def wreg(w, i, wd, mask):
 class C20(LineCheck):
     pid = "C20"
     coq_targets = ["theories/Misc/InotifyModel.vo", "theories/Misc/InotifyMonitor.vo", "theories/Misc/InotifySpec.vo",
-                   "theories/Misc/InotifyCodec.vo", "theories/Misc/InotifyInv.vo", "theories/Misc/InotifyProofs.vo"]
+                   "theories/Misc/InotifyCodec.vo", "theories/Misc/InotifyInv.vo", "theories/Misc/InotifyProofs.vo",
+                   "theories/Base/CSem.vo", "theories/Gen/LeafInotify.vo", "theories/Misc/InotifyLink.vo"]
+
+    # way (a) of the tie for the record walk of iv_inotify_got_event: read size, ret tests, curr / end initialisation, loop test,
+    # advance by len + sizeof(struct inotify_event), IN_IGNORED / IN_ONESHOT test, `this == NULL` are re-translated from the current
+    # source on every run (gen/c2gallina.py -> Gen/LeafInotify.v); Misc/InotifyLink.v proves them equal to the model's list walk
+    def pre_proof(self, ctx):
+        import leafgen
+        return leafgen.regenerate(["LeafInotify.v"])
+
+    def proofs(self, ctx):
+        import leafgen
+        return leafgen.explain(
+            LineCheck.proofs(self, ctx), "InotifyLink", "C20_record_walk_is_the_code (Misc/InotifyLink.v: leaf_read_size / "
+            "leaf_ret_tests / leaf_init_view / leaf_loop_test / leaf_advance_model / leaf_dropped_test / leaf_gone_test)",
+            "a piece of the record walk of iv_inotify_got_event in the current src/iv_inotify.c (`read(..., sizeof(event_queue))`, "
+            "`ret <= 0`, `ret == 0`, `curr = event_queue`, `end = event_queue + ret`, `while (curr < end)`, `event = curr`, "
+            "`event->mask & IN_IGNORED || w->mask & IN_ONESHOT`, `curr += event->len + sizeof(struct inotify_event)`, `this == NULL`), "
+            "as translated by gen/c2gallina.py into Gen/LeafInotify.v, is not the model's walk over the byte list (QUEUE_SIZE, "
+            "zskip (len + 16), bits 15 / 31) any more")
+
     corr_name = ("correspondence inotify_drv(iv_inotify.c) = extracted InotifyModel (rc of every call, every handler call with its "
                  "event bytes, the real watch tree at handler entry/exit and after every op, iv_fatal)")
     trusted = [
+        "gen/c2gallina.py (class CTr: clang JSON AST -> Gen/LeafInotify.v, rerun on every check) and the C semantics Base/CSem.v (pointer "
+        "arithmetic = address arithmetic inside [0, 2^64), object bounds not tracked; sizeof evaluated by clang): the pointer walk of "
+        "iv_inotify_got_event is translated and proved to simulate the model's walk over the byte list (C20_record_walk_is_the_code); "
+        "not translated: read() itself, errno, the decoding of header fields from memory (parse_header), __find_watch, the handler call; "
+        "the statements are selected by position (first call of read, if #0 #1 #4 #5, first while, first / second write of curr)",
         "modelled, not verified: the watch set is the sorted association list that the AVL tree of iv_avl.c represents (C16 covers the tree; "
         "the per-op and per-handler dumps walk the real tree); ->term is a three-valued state and the local `this` of the got_event frame a "
         "model variable; struct lifetime is a table (freed = absent), the C side shows stale accesses through ASan on poisoned, freed structs",
